@@ -33,6 +33,9 @@ CHECKS = {
     "C16": ("model-based property testing: exhaustive DFS over operation sequences + proptest random sequences, BTreeMap as reference model",
             "Every operation sequence over a 12-symbol alphabet up to depth 7 (8 in thorough) for both item conventions is enumerated and compared with BTreeMap after every step (iteration, first/last, find of every key), then random sequences of up to 150 operations including pushes that must panic.",
             "BTreeMap is the reference; key universe of 8; whole-item convention exercised with distinct keys only.", "DESIGN.md §5 C16"),
+    "C17": ("fault-injection property testing: scripted reader faults (short reads, EINTR, EOF, hard errors) enumerated exhaustively up to a script length and generated randomly beyond, against a reference read loop written from the documentation",
+            "All fault scripts up to length 4 (5) x 7 counts x 6 attempt limits x 5 (entry point, arena state) pairs are enumerated, plus random scripts and sequences of encode_read/decode_read calls; the instrumented reader records the buffer size of every call, and the result, call count, offered sizes, error kind and final codec output are compared with the reference.",
+            "Readers never deliver more than their buffer; reference codec of C07.", "DESIGN.md §5 C17"),
 }
 
 ALL = ["C%02d" % i for i in range(1, 21)]
